@@ -202,3 +202,126 @@ func VRootLeft(e Expression) int {
     ensures token == lexer.Arrow ==> result == ArrowMemberOperator
     ensures token == lexer.TildeArrow ==> result == TildeArrowMemberOperator
 @*/
+
+// ---------------------------------------------------------------------------
+// Source-level semantics of the infix operators: 64-bit two's-complement
+// integers, IEEE-754 doubles. Both execution backends are specified against
+// these functions (C01, C04).
+
+/*@ func VIntOp
+    wrap int64
+@*/
+func VIntOp(op InfixOperator, l int64, r int64) int64 {
+	switch op {
+	case PlusInfixOperator:
+		return l + r
+	case MinusInfixOperator:
+		return l - r
+	case MultiplyInfixOperator:
+		return l * r
+	case DivideInfixOperator:
+		return l / r
+	case ModuloInfixOperator:
+		return l % r
+	case ShiftLeftInfixOperator:
+		return l << r
+	case ShiftRightInfixOperator:
+		return l >> r
+	case BitOrInfixOperator:
+		return l | r
+	case BitAndInfixOperator:
+		return l & r
+	case BitXorInfixOperator:
+		return l ^ r
+	}
+	return 0
+}
+
+// VIntOpRaises: integer operations without a value: division and remainder
+// by zero, shifts by a negative count. They end the program with a value error.
+func VIntOpRaises(op InfixOperator, r int64) bool {
+	switch op {
+	case DivideInfixOperator, ModuloInfixOperator:
+		return r == 0
+	case ShiftLeftInfixOperator, ShiftRightInfixOperator:
+		return r < 0
+	}
+	return false
+}
+
+func VFloatOp(op InfixOperator, l float64, r float64) float64 {
+	switch op {
+	case PlusInfixOperator:
+		return l + r
+	case MinusInfixOperator:
+		return l - r
+	case MultiplyInfixOperator:
+		return l * r
+	case DivideInfixOperator:
+		return l / r
+	}
+	return 0
+}
+
+// VFloatOpRaises: float division by zero is a value error as well.
+func VFloatOpRaises(op InfixOperator, r float64) bool {
+	return op == DivideInfixOperator && r == 0.0
+}
+
+func VBoolOp(op InfixOperator, l bool, r bool) bool {
+	switch op {
+	case BitOrInfixOperator, LogicalOrInfixOperator:
+		return l || r
+	case BitAndInfixOperator, LogicalAndInfixOperator:
+		return l && r
+	case BitXorInfixOperator:
+		return l != r
+	}
+	return false
+}
+
+func VCmpInt(op InfixOperator, l int64, r int64) bool {
+	switch op {
+	case LessThanInfixOperator:
+		return l < r
+	case GreaterThanInfixOperator:
+		return l > r
+	case LessThanEqualInfixOperator:
+		return l <= r
+	case GreaterThanEqualInfixOperator:
+		return l >= r
+	}
+	return false
+}
+
+func VCmpFloat(op InfixOperator, l float64, r float64) bool {
+	switch op {
+	case LessThanInfixOperator:
+		return l < r
+	case GreaterThanInfixOperator:
+		return l > r
+	case LessThanEqualInfixOperator:
+		return l <= r
+	case GreaterThanEqualInfixOperator:
+		return l >= r
+	}
+	return false
+}
+
+func VIsCompare(op InfixOperator) bool {
+	return op == LessThanInfixOperator || op == GreaterThanInfixOperator || op == LessThanEqualInfixOperator || op == GreaterThanEqualInfixOperator
+}
+
+// VIsIntArith: operators with an int result on int operands (power excluded:
+// it is computed through floating point by both backends).
+func VIsIntArith(op InfixOperator) bool {
+	switch op {
+	case PlusInfixOperator, MinusInfixOperator, MultiplyInfixOperator, DivideInfixOperator, ModuloInfixOperator, ShiftLeftInfixOperator, ShiftRightInfixOperator, BitOrInfixOperator, BitAndInfixOperator, BitXorInfixOperator:
+		return true
+	}
+	return false
+}
+
+func VIsFloatArith(op InfixOperator) bool {
+	return op == PlusInfixOperator || op == MinusInfixOperator || op == MultiplyInfixOperator || op == DivideInfixOperator
+}
